@@ -192,6 +192,16 @@ class Puppet(object):
             for r in self.orig_send(Message(ContentType.handshake, bytearray(it[1])), True, False):
                 yield r
             return
+        if it[0] == "fab" and it[1] == "JUNK":
+            # a record that no key of this connection protects: application_data header + 100 arbitrary bytes, written
+            # below the record layer
+            self.sent.append("JUNK")
+            if self.conn._buffer_content_type is not None:
+                for r in self.orig_flush():
+                    yield r
+                self.sent_rec[-1] = self._nrec()
+            self.conn.sock.send(bytearray([23, 3, 3, 0, 100]) + bytearray((i * 37 + 11) & 255 for i in range(100)))
+            return
         if it[0] == "h":
             msg, via = self.produced[it[1]]
         else:
